@@ -115,7 +115,7 @@ def declare(t, c, default):
         if t == "List" and c["it"] != "none":
             kw["item_type"] = {"int": int, "str": str}[c["it"]]
     if t in ("Selector", "ListSelector"):
-        kw["objects"] = sorted(c["objs"])
+        kw["objects"] = {"l" + o: o for o in sorted(c["objs"])} if c.get("dd") else sorted(c["objs"])
         kw["check_on_set"] = c["cos"]
     if t == "ClassSelector":
         kw["class_"] = (A, Other) if c["cls"] == "AorOther" else CLASSES[c["cls"]]
@@ -237,7 +237,11 @@ def replay(tab, opts):
                 return fail("verdict", "%s route: %r was %s, spec says %s" % (
                     route, v, "accepted" if ok else "rejected (%s)" % type(exc).__name__,
                     "accepted" if cs["acc"] else "rejected"), cs["acc"], ok)
-            if ok:
+            if ok and t == "Event":
+                # an Event holds True only while its watchers run: the read-back is False by design
+                if got is not False and route != "class":
+                    return fail("readback", "%s route: an Event reads %r after the assignment returned" % (route, got))
+            elif ok:
                 if route != "deserialize" and not same(got, v):
                     return fail("readback", "%s route: assigned %r but read back %r" % (route, v, got), repr(v), repr(got))
                 if route == "deserialize" and not (same(got, v) or got == v):
